@@ -22,13 +22,15 @@ from .common import SCRATCH, Check, chunks, workers
 
 FILES = {("r1", "a.txt"): "r1a", ("r1", "b"): "r1b", ("r1", "sub", "c.txt"): "r1c", ("r2", "a.txt"): "r2a",
          ("r2", "d.txt"): "r2d", ("secret.txt",): "SECRET", ("r1x", "a.txt"): "r1x-a", ("r1", "sub.txt"): "r1subtxt"}
-SEGS = '{"a.txt", "a", "b", "sub", "c.txt", "d.txt", "secret.txt", "..", ".", "", "r1", "r2", "r1x", "sub.txt", "@DOTS1@", "@DOTS2@", "@SLASH@secret.txt", "@LONG@", "@NUL@a.txt"}'
+SEGS = '{"a.txt", "a", "b", "sub", "c.txt", "d.txt", "secret.txt", "..", ".", "", "r1", "r2", "r1x", "sub.txt", "@DOTS1@", "@DOTS2@", "@SLASH@secret.txt", "@LONG@", "@NUL@a.txt", "@BSUP@secret.txt"}'
 SEGS_FEW = '{"a.txt", "sub", "secret.txt", "..", ".", "", "r1", "r1x", "@DOTS1@", "@SLASH@secret.txt"}'
 # look-alike characters that compatibility normalisation folds into path syntax; to the
 # model they are ordinary (non-existing) file names
 LOOKALIKE = {"@DOTS1@": "\u2024\u2024", "@DOTS2@": "\uff0e\uff0e", "@SLASH@": "\uff0f",
              # names the file system itself refuses: longer than NAME_MAX, with a NUL byte
-             "@LONG@": "n" * 300, "@NUL@": "\x00"}
+             "@LONG@": "n" * 300, "@NUL@": "\x00",
+             # separators of another operating system: on POSIX a backslash is a character of the name
+             "@BSUP@": "..\\"}
 
 
 def build_tree(base: Path) -> None:
@@ -51,6 +53,8 @@ def make_loaders(base: Path, roots: list[list[str]], ext: str):
     paths = [base.joinpath(*r) for r in roots]
     e = ext or None
     out = {
+        # a search path relative to the working directory (the probe changes into the first root for it)
+        "rel": FileSystemLoader(Path("."), ext=e),
         "fs": FileSystemLoader(paths if len(paths) > 1 else paths[0], ext=e),
         "cfs": CachingFileSystemLoader(paths, ext=e),
         "choice": ChoiceLoader([FileSystemLoader(p, ext=e) for p in paths]),
@@ -83,7 +87,15 @@ def probe(rec: dict, base: Path, loaders_cache: dict) -> list[tuple[str, dict]]:
     fails = []
     want = {"kind": "ok", "text": f"content:{rec['content']}"} if rec["found"] else {"kind": "notfound"}
     quotable = "'" not in name and "\\" not in name and "\n" not in name and all(ord(ch) >= 8 for ch in name)   # (a literal cannot hold control characters below U+0008)
+    os.environ["HOME"] = str(base)              # "~" would be the directory that holds the outside file
+    home_cwd = os.getcwd()
     for lname, loader in loaders_cache[key].items():
+        if lname == "rel":
+            if len(rec["roots"]) != 1:
+                continue
+            os.chdir(base.joinpath(*rec["roots"][0]))
+        else:
+            os.chdir(home_cwd)
         env = Environment(loader=loader)
         tagenv = Environment(loader=ChoiceLoader([DictLoader({}), loader]))
         accesses = {
@@ -103,6 +115,7 @@ def probe(rec: dict, base: Path, loaders_cache: dict) -> list[tuple[str, dict]]:
                         (",parent" if ".." in rec["name"].split("/") else "") + \
                         (",empty" if rec["name"] in ("", "/", "@ROOT@/") else "")
                 fails.append((f"{clause}:{lname}:{aname}:{shape}:{got['kind']}", {"name": name, "want": want, "got": got, "rec": rec}))
+    os.chdir(home_cwd)
     return fails
 
 
